@@ -75,6 +75,11 @@ def run(ctx):
         chk.ob("fetch-halts/%#05x" % d, ok, "fetching 0x00 error-stops, 0x01 stops, nothing else halts",
                "control word %#05x" % d, repr(h))
 
+    # the graph is built from next_microprogram_address evaluated on a Signals value; the machine hands it the flags, ALU
+    # conditions and flip-flops through Signals::from: each input is wired to the source of the same name
+    from .. import pipeline
+    pipeline.accessors(ctx, prefix="sequencer-inputs")
+
     from .. import fetchlatch
     fetchlatch.obligations(ctx)
     fetchlatch.stop_edge_advances(ctx)      # STOP is a defined opcode: it completes (after continue) like any other
